@@ -133,9 +133,10 @@ static void build_injections(const std::string &doc, const RefResult &ref, std::
 	}
 	// trailing non-whitespace after the top-level value
 	{
-		static const char *junk[] = {"x", "]", "}", ",", "1", "\"s\"", "null", "{", ":", "[1]", "\xc3\xa4", "-"};
+		// (form feed, vertical tab, DEL and NBSP are not JSON whitespace: RFC 8259 allows space, \t, \n, \r only)
+		static const char *junk[] = {"x", "]", "}", ",", "1", "\"s\"", "null", "{", ":", "[1]", "\xc3\xa4", "-", "\f", "\v", "\x7f", "\xc2\xa0", "\x1f", "\x08"};
 		bool needs_sep = !tk.empty() && (tk.back().k == RefTok::NUMBER || tk.back().k == RefTok::LITERAL);
-		for (size_t j = 0; j < 12; j++)
+		for (size_t j = 0; j < 18; j++)
 		{
 			std::string m = doc.substr(0, ref.end) + (needs_sep || (salt + j) % 3 == 0 ? " " : "") + junk[j];
 			Inj &x = add(K_TRAILING_BYTES, m, true, ref.end, 0);
